@@ -20,7 +20,9 @@ AtomTexts == { "name > 'p4.log'", "name <= 'p6'", "ext >= 'm'", "name < 500", "n
                \* the documented infix negations and operator words in other letter cases
                "size between 10 and 1024", "size NOT BETWEEN 10 AND 1024", "size Between 11 And 2000", "name NOT LIKE '%.log'", "name Like 'p%'", "name RX 'txt$'",
                \* text operators on columns that are not text (they see the value as it is printed)
-               "size like '1%'", "uid =~ '^1'", "size notlike '%0'" }
+               "size like '1%'", "uid =~ '^1'", "size notlike '%0'",
+               \* ordering operators on a boolean column; strict equality with a decimal literal
+               "is_dir < true", "is_dir >= false", "is_file gt false", "is_dir <= true", "size === 10.0", "size !== 1024.0", "size === 11" }
 Laws == {"complement", "complement-prefix", "doubleneg", "and", "or", "demorgan-and", "demorgan-or", "precedence"}
 Unary == {"complement", "complement-prefix", "doubleneg"}
 Init == law = "" /\ f = "" /\ g = "" /\ h = "" /\ phase = "start"
